@@ -1,0 +1,57 @@
+//! Verification hooks (cargo feature `verif`, off by default).
+//!
+//! Nothing in here changes behaviour unless a controller installs a callback
+//! or sets the clock override: `sync` is a no-op without a callback and
+//! `now_override` is `None` until `set_now_ms` is called.
+
+use std::sync::atomic::{AtomicU64, Ordering};
+use std::sync::OnceLock;
+
+use crate::store::Frame;
+
+/// A named point in the control flow, reported to the installed callback.
+pub struct Point<'a> {
+    pub name: &'static str,
+    pub frame: Option<&'a Frame>,
+    /// identifies the `Store::read` call a reader-side point belongs to (0 = none)
+    pub reader: u64,
+}
+
+type Callback = Box<dyn Fn(&Point) + Send + Sync>;
+
+static CALLBACK: OnceLock<Callback> = OnceLock::new();
+static NOW_MS: AtomicU64 = AtomicU64::new(0);
+static READER: AtomicU64 = AtomicU64::new(0);
+
+/// Install the process-wide callback (first call wins).
+pub fn install(cb: Callback) {
+    let _ = CALLBACK.set(cb);
+}
+
+/// Report a point; the callback may block the calling thread to gate it.
+pub fn sync(name: &'static str, frame: Option<&Frame>, reader: u64) {
+    if let Some(cb) = CALLBACK.get() {
+        cb(&Point {
+            name,
+            frame,
+            reader,
+        });
+    }
+}
+
+/// Fresh identifier for one `Store::read` call.
+pub fn next_reader() -> u64 {
+    READER.fetch_add(1, Ordering::SeqCst) + 1
+}
+
+/// Override the wall clock used for TTL expiry (0 clears the override).
+pub fn set_now_ms(ms: u64) {
+    NOW_MS.store(ms, Ordering::SeqCst);
+}
+
+pub fn now_override() -> Option<u64> {
+    match NOW_MS.load(Ordering::SeqCst) {
+        0 => None,
+        ms => Some(ms),
+    }
+}
